@@ -960,7 +960,7 @@ class Evaluator:
     def st_If(self, st, fr):
         test = self.eval(st.test, fr)
         c = self.truth(test)
-        if not isinstance(c, Const) and self.merge_ifs and self.mergeable_if(st):
+        if not isinstance(c, Const) and self.merge_ifs and self.mergeable_if(st, fr):
             known = self.known_truth(c)
             if known is None:
                 return self.merged_if(st, c, fr)
@@ -976,7 +976,7 @@ class Evaluator:
                 return not taken
         return None
 
-    def mergeable_if(self, st):
+    def mergeable_if(self, st, fr=None):
         """Both arms only (re)bind plain names from call-free or library-only expressions."""
         def simple(body):
             for s in body:
@@ -997,11 +997,23 @@ class Evaluator:
                         continue
                     if isinstance(t, ast.Tuple) and all(isinstance(e, ast.Name) for e in t.elts):
                         continue
+                    if isinstance(t, ast.Subscript) and isinstance(t.value, ast.Name) and isinstance(s, ast.Assign) and self.pure_expr(t.slice) \
+                            and self.local_array(fr, t.value.id):
+                        continue   # a guarded element store into a local array: A[i] = ite(c, v, A[i])
                     return False
                 if not self.pure_expr(s.value):
                     return False
             return True
         return simple(st.body) and simple(st.orelse)
+
+    def local_array(self, fr, name):
+        """`name` is bound in the current frame to an array TERM that no view aliases (stores are then functional updates)."""
+        if fr is None or not isinstance(fr.vars.get(name), V):
+            return False
+        if any(nm == name or base == name for nm, (base, _i) in getattr(fr, "views", {}).items()):
+            return False
+        v = fr.vars[name]
+        return isinstance(v, App) and v.fn in ("store", "copy", "empty", "zeros", "ones", "full", "getitem", "fresh", "carried")
 
     def pure_expr(self, e):
         for n in ast.walk(e):
@@ -1041,6 +1053,10 @@ class Evaluator:
                 b = b if b is not None else Top("unbound on one arm")
             if a is b or (isinstance(a, V) and isinstance(b, V) and a == b):
                 out[k] = a
+            elif isinstance(a, App) and a.fn == "store" and len(a.args) == 3 and a.args[0] == b:
+                out[k] = App("store", (b, a.args[1], ite(c, a.args[2], self.lib.getitem(self, b, a.args[1]))))
+            elif isinstance(b, App) and b.fn == "store" and len(b.args) == 3 and b.args[0] == a:
+                out[k] = App("store", (a, b.args[1], ite(c, self.lib.getitem(self, a, b.args[1]), b.args[2])))
             elif isinstance(a, V) and isinstance(b, V):
                 out[k] = ite(c, a, b)
             else:
